@@ -83,9 +83,11 @@ theorem specPixelsT_rows_of_image (h : Header) (hil : h.interlaced = false) (con
     replaced by the contract `t.Converts f i h.width` for the `Info` `i` the stream decoder holds after the chunks
     before the image data (`dA.info = some i`: the header's fields plus `PLTE`, `tRNS`, …): the advertised output type
     is a legal pair, `create_transform_fn` succeeds on `i`, and a row of `w ≤ width` pixels is converted into exactly
-    `output_line_size(w)` bytes.  The two size checks of the decoder are about the OUTPUT: `read_info`'s
+    `output_line_size(w)` bytes.  The size checks of the decoder are about the OUTPUT: `read_info`'s first
     (mod.rs:206-218) is made with the `Info` after `IHDR` alone (`h.info`) — its advertised depth must be a PNG depth
-    and `line · height < 2^64` —; the line buffer charged to the limits (mod.rs:369) is the output line for `i`.
+    and `line · height < 2^64` —; its second (mod.rs:224-232, repair f60364d) is made with `i`, whose output pixels a
+    `tRNS` chunk may have widened: `output_line_size · height < 2^64` for `i` as well; the line buffer charged to the
+    limits (mod.rs:369) is the output line for `i`.
 
     Then `read_info` succeeds and `next_frame`, into a buffer of `output_buffer_size()` bytes pre-filled with any byte
     `p`, succeeds, reports the image's size with the advertised OUTPUT colour type, bit depth and line size, and
@@ -100,6 +102,7 @@ def C08_decode_generic_statement : Prop :=
     zs ≠ [] → (∀ z ∈ zs, z.length < 2 ^ 32) → cfg.inflate zs.flatten = some (raw, true) → RawOk h raw →
     (∀ c ∈ post, c.1 ≠ IDAT ∧ c.1 < 2 ^ 32 ∧ c.2.length < 2 ^ 32) →
     depthOk (t.outColorDepth h.info f).2 = true → outLineSize t h.info f h.width * h.height < 2 ^ 64 →
+    outLineSize t i f h.width * h.height < 2 ^ 64 →
     outLineSize t i f h.width ≤ dA.limit →
     ∃ buf,
       (Reader.run cfg t
@@ -116,7 +119,7 @@ def C08_decode_generic_statement : Prop :=
 
 /-- **C08 end to end, generic** (the composition L1 ∘ L2 with an arbitrary row transformation, at full strength) -/
 theorem C08_decode_generic : C08_decode_generic_statement := by
-  intro cfg t f opts limit h anc dA i zs raw post p hI hC hv hanc hidle hiA hcv hzs hlen hinf hraw hpost hod0 hsize hlimit
+  intro cfg t f opts limit h anc dA i zs raw post p hI hC hv hanc hidle hiA hcv hzs hlen hinf hraw hpost hod0 hsize hsize2 hlimit
   obtain ⟨len', t', rest', htail, h1, h2, h3⟩ := C01.tail_shape cfg post hpost
   cases zs with
   | nil => exact absurd rfl hzs
@@ -126,7 +129,7 @@ theorem C08_decode_generic : C08_decode_generic_statement := by
       rw [← htail]; simp only [List.append_assoc]
     rw [hfile]
     exact decodeT_wf cfg hI hC t f opts limit h hv anc dA i hanc hidle hiA hcv z zs raw (hlen z (by simp))
-      (fun z' hz' => hlen z' (by simp [hz'])) hinf hraw len' t' rest' h1 h2 h3 hod0 hsize hlimit p
+      (fun z' hz' => hlen z' (by simp [hz'])) hinf hraw len' t' rest' h1 h2 h3 hod0 hsize hsize2 hlimit p
 
 /-- **the contract follows from `TCfg.Ok`** (the contract of C02 / C05 / C13, `Proofs/ReaderInv.lean`) as soon as
     `create_transform_fn` succeeds on `i`: snapshot = current `Info`, every width -/
@@ -227,6 +230,7 @@ theorem C08_decode : C08_decode_statement := by
     (realT_converts hti hdec f h.width) hzs hlen hinf hraw hpost
     (realT_out_header_depthOk hti hdec.legal hc0 hd0 rfl rfl f)
     (Nat.lt_of_le_of_lt (Nat.mul_le_mul_right _ hle) (by rw [hols]; exact hsize))
+    (by rw [hols]; exact hsize)
     (by rw [hols]; exact hlimit)
   rw [hout, hols] at hrun
   rw [hout, hols, samplesOf_toNat] at hspec
@@ -377,6 +381,7 @@ theorem C08_decode_rows_generic (cfg : Cfg) (t : TCfg) (f : Flags) (opts : Optio
     (hzs : zs ≠ []) (hlen : ∀ z ∈ zs, z.length < 2 ^ 32) (hinf : cfg.inflate zs.flatten = some (raw, true))
     (hraw : RawOk h raw) (hpost : ∀ c ∈ post, c.1 ≠ IDAT ∧ c.1 < 2 ^ 32 ∧ c.2.length < 2 ^ 32)
     (hod0 : depthOk (t.outColorDepth h.info f).2 = true) (hsize : outLineSize t h.info f h.width * h.height < 2 ^ 64)
+    (hsize2 : outLineSize t i f h.width * h.height < 2 ^ 64)
     (hlimit : outLineSize t i f h.width ≤ dA.limit) :
     (Reader.run cfg t
       (R.init opts limit f
@@ -394,7 +399,7 @@ theorem C08_decode_rows_generic (cfg : Cfg) (t : TCfg) (f : Flags) (opts : Optio
       rw [← htail]; simp only [List.append_assoc]
     rw [hfile]
     exact decodeT_rows_wf cfg hI hC t f opts limit h hv anc dA i hanc hidle hiA hcv z zs raw (hlen z (by simp))
-      (fun z' hz' => hlen z' (by simp [hz'])) hinf hraw len' t' rest' h1 h2 h3 hod0 hsize hlimit
+      (fun z' hz' => hlen z' (by simp [hz'])) hinf hraw len' t' rest' h1 h2 h3 hod0 hsize hsize2 hlimit
 
 /-- **C08 end to end, row by row**, for the model's real transformation: every `next_row` call returns the DOCUMENTED
     conversion `specConvert` of the specification's next scanline (of the image, or of a reduced image for Adam7) -/
@@ -427,6 +432,7 @@ theorem C08_decode_rows (cfg : Cfg) (f : Flags) (opts : Options) (limit : Nat) (
     (realT_converts hti hdec f h.width) hzs hlen hinf hraw hpost
     (realT_out_header_depthOk hti hdec.legal hc0 hd0 rfl rfl f)
     (Nat.lt_of_le_of_lt (Nat.mul_le_mul_right _ hle) (by rw [hols]; exact hsize))
+    (by rw [hols]; exact hsize)
     (by rw [hols]; exact hlimit)]
   congr 2
   refine List.map_congr_left fun x hx => ?_
